@@ -438,7 +438,20 @@ def _eval_call (repo, module, e, env, cls):
     if fn.id == 'type' and len(args) == 1: return type(args[0])
     if fn.id == 'isinstance' and len(args) == 2: return isinstance(args[0], args[1])
     if fn.id == 'bool' and len(args) == 1: return bool(args[0])
+    if fn.id in ('list', 'tuple', 'set', 'sorted', 'str', 'int') and len(args) == 1:
+      try: return {'list': list, 'tuple': tuple, 'set': set, 'sorted': sorted, 'str': str, 'int': int}[fn.id](args[0])
+      except Exception: raise _Unknown()
+  if isinstance(fn, ast.Attribute) and fn.attr in _PURE_METHODS and not e.keywords:
+    base = eval_env2(repo, module, fn.value, env, cls)
+    if type(base) in (str, bytes, list, tuple, dict, set, frozenset):
+      args = [eval_env2(repo, module, a, env, cls) for a in e.args]
+      try: return getattr(base, fn.attr)(*args)
+      except Exception: raise _Unknown()
   raise _Unknown()
+
+_PURE_METHODS = ('split', 'rsplit', 'join', 'partition', 'rpartition', 'count', 'startswith', 'endswith',
+                 'lower', 'upper', 'strip', 'lstrip', 'rstrip', 'replace', 'find', 'index', 'get', 'isdigit',
+                 'keys', 'values', 'items', 'encode', 'decode', 'ljust', 'rjust', 'zfill', 'format')
 
 def eval_env2 (repo, module, e, env, cls=None):
   """eval_env plus len/type/isinstance on known values, constant subscripts
@@ -448,7 +461,13 @@ def eval_env2 (repo, module, e, env, cls=None):
   if isinstance(e, ast.Name) and e.id in _BUILTIN_VALUES: return _BUILTIN_VALUES[e.id]
   if isinstance(e, ast.Call): return _eval_call(repo, module, e, env, cls)
   if isinstance(e, ast.Subscript):
-    base = eval_env2(repo, module, e.value, env, cls); idx = eval_env2(repo, module, e.slice, env, cls)
+    base = eval_env2(repo, module, e.value, env, cls)
+    if isinstance(e.slice, ast.Slice):
+      ev = lambda x: None if x is None else eval_env2(repo, module, x, env, cls)
+      try: return base[ev(e.slice.lower):ev(e.slice.upper):ev(e.slice.step)]
+      except _Unknown: raise
+      except Exception: raise _Unknown()
+    idx = eval_env2(repo, module, e.slice, env, cls)
     try: return base[idx]
     except Exception: raise _Unknown()
   if isinstance(e, (ast.UnaryOp, ast.BoolOp, ast.BinOp, ast.Compare, ast.Tuple, ast.List, ast.Set)):
@@ -467,7 +486,7 @@ def _eval_struct (repo, module, e, env, cls):
       except _Unknown: pass
   return eval_env(repo, module, e, sub, cls)
 
-def paths_under (repo, module, g, env, start, stops, cls=None, limit=200, track=True):
+def paths_under (repo, module, g, env, start, stops, cls=None, limit=200, track=True, on_node=None):
   """enumerate paths start -> any node in `stops` following only branches
   consistent with env; simple local assignments update a per-path copy of the
   environment (constant propagation; unknown values drop the binding).
@@ -477,6 +496,7 @@ def paths_under (repo, module, g, env, start, stops, cls=None, limit=200, track=
   stack = [(start, (start,), env, frozenset())]
   while stack and len(out) < limit:
     n, path, e, used = stack.pop()
+    if on_node is not None: on_node(n, e)
     if n in stops and len(path) > 1:
       out.append((path, e)); continue
     succ = n.succ
@@ -505,6 +525,16 @@ def _assign_env (repo, module, st, env, cls):
     _kill(ne, nm)
     if known: ne.exact[nm] = val
     return ne
+  if isinstance(st, ast.Assign) and len(st.targets) == 1 and isinstance(st.targets[0], (ast.Tuple, ast.List)) and \
+     all(isinstance(x, ast.Name) for x in st.targets[0].elts):
+    try:
+      val = eval_env2(repo, module, st.value, env, cls)
+      val = list(val)
+      if len(val) == len(st.targets[0].elts):
+        for x, v in zip(st.targets[0].elts, val):
+          _kill(ne, x.id); ne.exact[x.id] = v
+        return ne
+    except Exception: pass
   # anything else: kill every name stored
   for t in (st.targets if isinstance(st, ast.Assign) else [st.target]):
     for tt in _flatten(t):
